@@ -170,11 +170,32 @@ def run_history(kind, args, evs, order, check_every=True, via_load=False):
             op = ev[0]
             if op == "mergeH":
                 # a handle merges another handle of the SAME block: the twin merges a copy of itself
-                handles[ev[1]].merge(handles[ev[2]])
+                try:
+                    handles[ev[1]].merge(handles[ev[2]])
+                except Exception as e:  # noqa - two handles of one block always agree on every parameter
+                    probs.append(f"step {i+1} {ev}: merging two handles of one block raised "
+                                 f"{type(e).__name__}: {str(e)[:120]}")
+                    break
                 twin.merge(copy.deepcopy(twin))
             else:
-                ra = act(handles[ev[1]], ev, handles, M, kind)
-                rb = act(twin, ev, handles, M, kind)
+                ea = eb = None
+                ra = rb = None
+                try:
+                    ra = act(handles[ev[1]], ev, handles, M, kind)
+                except Exception as e:  # noqa
+                    ea = e
+                try:
+                    rb = act(twin, ev, handles, M, kind)
+                except Exception as e:  # noqa
+                    eb = e
+                if (ea is None) != (eb is None) or (ea is not None and type(ea) is not type(eb)):
+                    probs.append(f"step {i+1} {ev}: through the handle "
+                                 f"{'raised ' + type(ea).__name__ + ': ' + str(ea)[:100] if ea else 'returned'}, "
+                                 f"on the in-memory twin "
+                                 f"{'raised ' + type(eb).__name__ if eb else 'returned'}")
+                    break
+                if ea is not None:
+                    continue
                 if op == "query" and sorted(ra) != sorted(rb):
                     probs.append(f"step {i+1} {ev}: handle answers {ra}, in-memory twin {rb}")
             if check_every or i == len(evs) - 1:
